@@ -10,7 +10,7 @@ of problems reported through `handle_error`, the unread `rest`) and the error th
 reader (`some e` = raised).  All theorems hold for every text, mode, wanted-set, initial macro
 table and person-field list.
 -/
-import PybtexModel.Lemmas.BibTotal
+import PybtexModel.Lemmas.BibDepth
 
 namespace Pybtex.Props
 open Pybtex Pybtex.Bib
@@ -20,7 +20,8 @@ argument = remaining length + 1).  The content: the fuel never runs out and no i
 branch is taken — no error of kind `internal` is ever reported or raised; and when nothing was
 raised the whole text has been read (no `@` is left unread: reading continued after each error).
 (`nameTooDeep`, the `BibTeXError` of `Person()` on a name nested deeper than 100 braces, is *not*
-excluded here: it is reachable through an initial macro table `macros0` with such a value.) -/
+excluded here: it is reachable through an initial macro table `macros0` with such a value; see
+`C10_total_wellnested`.) -/
 theorem C10_total (text : Str) (strict : Bool) (wanted : Option (List Str))
     (macros0 : List (Str × Str)) (roles : List Str) :
     (∀ e ∈ (parseBib text strict wanted macros0 roles).1.errs, e.kind ≠ .internal) ∧
@@ -29,6 +30,37 @@ theorem C10_total (text : Str) (strict : Bool) (wanted : Option (List Str))
       '@' ∉ (parseBib text strict wanted macros0 roles).1.rest) := by
   obtain ⟨hI, _, hE, hR⟩ := parseBib_good text strict wanted macros0 roles
   exact ⟨fun e he => (hI.2.2 e he).1, fun e he => (hE e he).1, fun h hc => hR h _ hc rfl⟩
+
+/-- **No nesting error from `Person()`.**  `VOK v` says that the braces of `v` are balanced and
+never nested deeper than 100.  If every value of the initial macro table is such (the month names
+are, see `_nonvacuous`), then every value the reader assembles is (strings are cut off by the
+`max_level` guard of `parse_string`, macros and `#` only concatenate balanced pieces), every name
+piece handed to `Person()` is a segment of such a value, and `scan_bibtex_string`'s guard never
+fires: no error of kind `nameTooDeep` is reported or raised, in either mode — so with
+`C10_total` only the reader's own located/data errors remain, and continue mode raises nothing
+at all. -/
+theorem C10_total_wellnested (text : Str) (strict : Bool) (wanted : Option (List Str))
+    (macros0 : List (Str × Str)) (roles : List Str) (hm : ∀ p ∈ macros0, VOK p.2) :
+    (∀ e ∈ (parseBib text strict wanted macros0 roles).1.errs, e.kind ≠ .nameTooDeep) ∧
+    (∀ e, (parseBib text strict wanted macros0 roles).2 = some e → e.kind ≠ .nameTooDeep) ∧
+    (parseBib text false wanted macros0 roles).2 = none := by
+  obtain ⟨h1, h2⟩ := parseBib_noDeep text strict wanted macros0 roles hm
+  refine ⟨h1, h2, ?_⟩
+  have h3 := (parseBib_noDeep text false wanted macros0 roles hm).2
+  rcases (parseBib_sim text wanted macros0 roles).1 with h | h
+  · exact h
+  · exact absurd rfl (h3 _ h)
+
+/-- the default macro table (month names) meets the hypothesis; a name nested 100 deep is read
+(`{`×100 inside the quoted string is the deepest `parse_string` lets through) -/
+theorem C10_total_wellnested_nonvacuous :
+    (∀ p ∈ Gen.monthMacros, VOK p.2) ∧
+    (parseBib ("@a{k, author = \"".toList ++ List.replicate 100 '{' ++ "x".toList ++
+        List.replicate 100 '}' ++ " Y\"}".toList) false none).1.errs = [] ∧
+    (parseBib ("@a{k, author = \"".toList ++ List.replicate 100 '{' ++ "x".toList ++
+        List.replicate 100 '}' ++ " Y\"}".toList) false none).1.db.entries.map
+          (fun e => e.persons.map (fun r => r.2.length)) = [[1]] := by
+  decide +kernel
 
 /-- **Located.**  Every syntax error (`TokenRequired`, `PrematureEOF`, "too many nested braces",
 "unbalanced braces", `UndefinedMacro`) that is reported or raised carries a line number, and that
@@ -64,7 +96,8 @@ theorem C10_located_nonvacuous :
 /-- **Modes.**  Strict reading is continue-mode (capture / non-strict) reading cut at the first
 problem.  Let `c` be the continue-mode run and `t` the strict run of the same text.
 * `c` raises nothing — except the `BibTeXError` of `Person()` on a name nested deeper than 100
-  braces, which `pybtex` does not route through `handle_error` (see `C10_total`);
+  braces, which `pybtex` does not route through `handle_error`; that one is unreachable when the
+  initial macro values are well nested (`C10_total_wellnested`: then `c.2 = none`);
 * if `c` reported nothing, `t` ends exactly like `c` (same outcome, same database, same unread rest);
 * if `c` reported `e` first, `t` raises `e`. -/
 theorem C10_modes (text : Str) (wanted : Option (List Str)) (macros0 : List (Str × Str))
@@ -162,6 +195,20 @@ theorem C10_confined_neg :
     (parseBib "@misc{p, t = 1}\n\n@misc{z, v = 2}\n".toList
         false none).1.db.entries.map (fun e => (e.key, e.fields))
       = [("p".toList, [("t".toList, "1".toList)]), ("z".toList, [("v".toList, "2".toList)])] := by
+  decide +kernel
+
+/-- **Confinement also fails for a lone `@`** (a command truncated right after its `@`; it has no
+brace, no quote and no further `@`).  `@` is one of `NAME_CHARS`, so the command name is read
+across the line break from the next command: `@misc{z, v = 2}` is read as an entry of type `@misc`,
+and nothing is reported.  Hence `C10_confined_partial` in the form "balanced braces and quotes, no
+`@` after the first character" is false; it would need "the command name ends inside the malformed
+command" as well. -/
+theorem C10_confined_lone_at_neg :
+    (parseBib "@\n@misc{z, v = 2}\n".toList false none).1.db.entries.map
+        (fun e => (e.key, e.origType)) = [("z".toList, "@misc".toList)] ∧
+    (parseBib "@\n@misc{z, v = 2}\n".toList false none).1.errs = [] ∧
+    (parseBib "\n@misc{z, v = 2}\n".toList false none).1.db.entries.map
+        (fun e => (e.key, e.origType)) = [("z".toList, "misc".toList)] := by
   decide +kernel
 
 end Pybtex.Props
